@@ -787,7 +787,7 @@ class _DeleteState(_PostSortRec):
         recs.difference_update(our_recs)
         states = [self.state] + [r.state for r in our_recs]
         persistence._delete_obj(
-            mapper, [s for s in states if uow.states[s][0]], uow
+            mapper, [s for s in states if uow.states[s] == (True, False)], uow
         )
 
     def __repr__(self):
